@@ -141,6 +141,15 @@ func c07R1(c *Ctx, rule string) {
 		if call.Call.IsInvoke() && call.Call.Method.Name() == "processFirstPacket" {
 			pfp = call
 		}
+		// the transport's parse step under another name: the invoke on the Transport interface that receives the
+		// packet (first parameter of AuthFirstPacket) and returns the fragments, the responder and an error
+		if call.Call.IsInvoke() && pfp == nil && len(f.Params) > 0 && len(call.Call.Args) >= 1 && call.Call.Args[0] == ssa.Value(f.Params[0]) {
+			if tr := p.Named("internal/server", "Transport"); tr != nil && namedOf(call.Call.Value.Type()) == tr {
+				if res := call.Call.Signature().Results(); res.Len() == 3 && typeStr(res.At(2).Type()) == "error" {
+					pfp = call
+				}
+			}
+		}
 		if g := call.Call.StaticCallee(); g != nil {
 			switch g {
 			case regF:
@@ -422,6 +431,18 @@ func c07R3(c *Ctx, rule string) {
 				if _, ok := lenEq(a, 64); ok {
 					eq64 = true
 				}
+				// the same equation in another arrangement: len(hidden) == 32 + 64, len(hidden) − 32 == 64, …
+				if a.Kind == "cmp" && a.Op == token.EQL && len(f.Params) > 1 {
+					d := symAff(a.X, 0).add(symAff(a.Y, 0), -1)
+					if len(d.Terms) == 1 {
+						for s, k := range d.Terms {
+							lc, isLen := s.(*ssa.Call)
+							if isLen && calleeName(&lc.Call) == "builtin.len" && lc.Call.Args[0] == ssa.Value(f.Params[1]) && (k == 1 && d.C == -96 || k == -1 && d.C == 96) {
+								eq64 = true
+							}
+						}
+					}
+				}
 			}
 			c.Check(ge96 && eq64, rule, "WebSocket carrier: ≥96 hidden bytes, exactly 64 after the key", c.at(r), "len(hidden) >= 96 ∧ len(hidden[32:]) == 64", fmt.Sprintf("length checks missing (>=96: %v, ==64: %v)", ge96, eq64))
 		}
@@ -447,15 +468,15 @@ func c07R3(c *Ctx, rule string) {
 				// however the three length bytes are decoded: len(part of the message) == a value computed from the message
 				if a.Kind == "cmp" && a.Op == token.EQL && len(f.Params) > 0 {
 					for _, side := range []ssa.Value{a.X, a.Y} {
-						lc, isLen := stripConv(side).(*ssa.Call)
-						if !isLen || calleeName(&lc.Call) != "builtin.len" {
+						// one side is a remaining length (len(rest), len(msg)−consumed, …), the other the declared length
+						if !lenExpr(side, 0) {
 							continue
 						}
 						other := otherSide(a, side)
-						if _, isK := intConst(other); isK {
+						if _, isK := intConst(other); isK || lenExpr(other, 0) {
 							continue
 						}
-						if valueDependsOn(lc.Call.Args[0], f.Params[0], 0) && valueDependsOn(other, f.Params[0], 0) {
+						if valueDependsOn(side, f.Params[0], 0) && valueDependsOn(other, f.Params[0], 0) {
 							ln = true
 						}
 					}
